@@ -106,9 +106,13 @@ def errors_delivered(fx):
             continue
         for bi, t in f.calls():
             o, p = q.names(t)
-            if o != DRIVER_COPY or len(t["args"]) < 4:
+            if o != DRIVER_COPY:
                 continue
-            tys, unknown = _arc_types(fx, f, t["args"][3])
+            # the updater is the argument of type Arc<dyn StatusUpdater> (whatever else copy() takes)
+            ai = [i for i, ty in enumerate(t.get("arg_tys") or []) if "StatusUpdater" in ty and "Arc<" in ty]
+            if not ai:
+                continue
+            tys, unknown = _arc_types(fx, f, t["args"][ai[-1]])
             bad = []
             for ty in sorted(tys):
                 impl = "<%s as %s>::send" % (ty, "libxcp::feedback::StatusUpdater")
